@@ -17,7 +17,6 @@ FINISH = dict(level="model_checking",
 
 NAN = float("nan")
 STR = {1: "s", 2: "t"}
-FAMILIES = ["scale1", "scale1s", "scale2", "impute1", "impute1s", "impute2"]
 
 
 # ---------------------------------------------------------------- conversion (model value -> Python value)
@@ -195,55 +194,80 @@ def replay(ctx, case, rep, api):
     return None
 
 
-def run_tlc(ctx, fam, rows1, rows2):
-    sub = {'Family = "scale1"': 'Family = "%s"' % fam, "MaxRows = 3": "MaxRows = %d" % rows1, "MaxRows2 = 2": "MaxRows2 = %d" % rows2,
-           "Usings = {0, 1, 2}": "Usings = %s" % ctx.pick("{0, 1, 2}", "{0, 1, 2, 5}"), "Lite = TRUE": "Lite = %s" % ctx.pick("TRUE", "FALSE")}
-    cfg = tracecheck._cfg("ScaleImpute.cfg", sub, ctx.scratch, "si_%s.cfg" % fam)
-    return tlc.run("ScaleImpute", cfg, os.path.join(ctx.scratch, fam), workers=ctx.pick(4, 8), timeout=1500, heap=ctx.pick("4g", "12g"))
+class _Stats:
+    coverage = {}
+    def __init__(self, r): self.distinct, self.generated, self.depth, self.wall = r.distinct, r.generated, r.depth, r.wall
+
+
+def job(args):
+    """One independent slice of the case space (family x row counts), run in a forked worker: TLC generates the cases,
+    every case is replayed.  Returns only what the parent needs (counts, TLC statistics, failing cases)."""
+    name, fam, lo, hi, quick, scratch, subst = args
+    sub = dict(subst); sub['Family = "scale1d"'] = 'Family = "%s"' % fam
+    sub["MinRows = 1"] = "MinRows = %d" % lo; sub["MaxRows = 3"] = "MaxRows = %d" % hi
+    cfg = tracecheck._cfg("ScaleImpute.cfg", sub, scratch, "si_%s.cfg" % name)
+    r = tlc.run("ScaleImpute", cfg, os.path.join(scratch, name), workers=3, timeout=1500, heap="6g")
+    if r.violations:
+        return dict(name=name, error="the oracle violates its own invariant %s: %s" % (r.violations[0]["name"], r.violations[0]["trace"][:6]))
+    cases = [j for j in r.json if isinstance(j, dict) and "expected" in j]
+    if len(cases) * 2 != r.distinct or not cases:
+        return dict(name=name, error="%d cases printed for %d states" % (len(cases), r.distinct))
+    st = _Stats(r); del r
+    for c in cases: c["_k"] = json.dumps(c, sort_keys=True)
+    cases.sort(key=lambda c: (len(c["given"]), len(c["cols"]), c["_k"]))
+    for c in cases: del c["_k"]
+    # numbers as ints and as floats (thorough: also ints and floats alternating by row)
+    reps = {a: ("int", "float") if quick else ("int", "float", "alt") for a in ("filter", "env", "envlist")}
+    replays = 0; viol = []; seen = {}
+    for c in cases:
+        has_num = any(x["t"] == "num" for col in c["cols"] for x in col)
+        apis = ("filter", "env") if len(c["par"].get("stats", [1])) == 1 else ("envlist",)
+        for api in apis:
+            for rep in reps[api]:
+                if rep != "int" and not has_num: continue
+                replays += 1
+                res = replay(None, c, rep, api)
+                if res is None: continue
+                kind, detail, at, text = res
+                if kind == "raises" and api == "env":     # the pipeline buffers: locate the failing interaction with the bare filter
+                    loc = replay(None, c, rep, "filter")
+                    if loc is not None and loc[0] == "raises": at = loc[2]
+                sig = classify(c, rep, api, kind, detail, at)
+                seen[sig] = seen.get(sig, 0) + 1
+                if seen[sig] <= 3:
+                    what = "%s %s(%s, using=%r) [%s, numbers as %s]: %s" % (c["shape"], c["f"], json.dumps(c["par"]), c["using"] or None, api, rep, text)
+                    viol.append((sig, what, dict(case=c, rep=rep, api=api)))
+                else:
+                    viol.append((sig, None, None))
+    return dict(name=name, stats=st, ncases=len(cases), replays=replays, viol=viol, sample=cases[len(cases) // 2])
 
 
 def run(ctx):
     from ..core import MachineryError
-    from concurrent.futures import ThreadPoolExecutor
-    rows1, rows2 = ctx.pick((3, 2), (4, 3))
+    import multiprocessing
+    from concurrent.futures import ProcessPoolExecutor
+    import coba.environments, coba.environments.filters, coba.primitives      # imported before the workers are forked
+    one = ["scale1d", "scale1v", "scale1s", "impute1d", "impute1v", "impute1s"]; two = ["scale2", "impute2"]
+    if ctx.quick:
+        subst = {"Usings = {0, 1, 2}": "Usings = {0, 1, 2, 5}"}
+        jobs = [(f, f, 1, 3) for f in one] + [(f, f, 2, 2) for f in two]
+    else:
+        subst = {"Usings = {0, 1, 2}": "Usings = {0, 1, 2, 5}", "Lite = TRUE": "Lite = FALSE"}
+        jobs = [("%s_%d" % (f, hi), f, lo, hi) for f in one for lo, hi in ((4, 4), (1, 3))] + [("%s_%d" % (f, n), f, n, n) for f in two for n in (3, 2)]
+    args = [(name, fam, lo, hi, ctx.quick, ctx.scratch, subst) for name, fam, lo, hi in jobs]
     total = 0
-    with ThreadPoolExecutor(ctx.pick(6, 3)) as ex:          # the TLC runs are independent processes; results are consumed in a fixed order
-        futs = [(fam, ex.submit(run_tlc, ctx, fam, rows1, rows2)) for fam in FAMILIES]
-        for fam, fut in futs:
-            r = fut.result()
-            ctx.add_tlc("ScaleImpute:" + fam, r)
-            if r.violations:
-                raise MachineryError("the oracle violates its own invariant %s in family %s: %s" % (r.violations[0]["name"], fam, r.violations[0]["trace"][:6]))
-            cases = [j for j in r.json if isinstance(j, dict) and "expected" in j]
-            if len(cases) * 2 != r.distinct or not cases: raise MachineryError("family %s: %d cases printed for %d states" % (fam, len(cases), r.distinct))
-            r.json = None; r.out = None
-            for c in cases: c["_k"] = json.dumps(c, sort_keys=True)
-            cases.sort(key=lambda c: (len(c["given"]), len(c["cols"]), c["_k"]))
-            ctx.sample({k: v for k, v in cases[len(cases) // 2].items() if k != "_k"}, limit=len(FAMILIES))
-            # numbers as ints and as floats (thorough: also alternating); quick keeps the float replay for Scale's filter only
-            if ctx.quick: reps = {"filter": ("int", "float") if fam.startswith("scale") else ("int",), "env": ("int",), "envlist": ("int",)}
-            else: reps = {a: ("int", "float", "alt") for a in ("filter", "env", "envlist")}
-            for c in cases:
-                key = c.pop("_k")
-                has_num = any(x["t"] == "num" for col in c["cols"] for x in col)
-                apis = ("filter", "env") if len(c["par"].get("stats", [1])) == 1 else ("envlist",)
-                for api in apis:
-                    for rep in reps[api]:
-                        if rep != "int" and not has_num: continue
-                        ctx.case(key); ctx.traces += 1
-                        res = replay(ctx, c, rep, api)
-                        if res is None: continue
-                        kind, detail, at, text = res
-                        if kind == "raises" and api == "env":     # the pipeline buffers: locate the failing interaction with the bare filter
-                            loc = replay(ctx, c, rep, "filter")
-                            if loc is not None and loc[0] == "raises": at = loc[2]
-                        sig = classify(c, rep, api, kind, detail, at)
-                        what = "%s %s(%s, using=%r) [%s, numbers as %s]: %s" % (c["shape"], c["f"], json.dumps(c["par"]), c["using"] or None, api, rep, text)
-                        ctx.violation(sig, what, dict(case=c, rep=rep, api=api))
-            total += len(cases)
+    with ProcessPoolExecutor(ctx.pick(8, 12), mp_context=multiprocessing.get_context("fork")) as ex:
+        for n, out in enumerate(ex.map(job, args)):         # results are consumed in the fixed order of `jobs`
+            if "error" in out: raise MachineryError("job %s: %s" % (out["name"], out["error"]))
+            ctx.add_tlc("ScaleImpute:" + out["name"], out["stats"])
+            for i in range(out["ncases"]): ctx.case((n, i))
+            ctx.evaluations += out["replays"] - out["ncases"]; ctx.traces += out["replays"]
+            ctx.sample(out["sample"], limit=8)
+            for sig, what, obj in out["viol"]: ctx.violation(sig, what or "", obj)
+            total += out["ncases"]
     ctx.exhaustive = True
     ctx.extra["spec_cases"] = total
-    ctx.extra["bounds"] = dict(rows_one_feature=rows1, rows_two_features=rows2)
+    ctx.extra["bounds"] = dict(jobs=[j[0] for j in jobs], rows_one_feature=ctx.pick(3, 4), rows_two_features=ctx.pick(2, 3))
     ctx.assumptions += [
         "floats: produced values are compared with the spec's exact rationals to 1e-9 (relative); rounding, overflow and values within 1e-6 of a zero spread are not explored",
         "outside the domain (spec InDomain): a feature with no non-missing value in the window, std over < 2 values, a non-zero shift for sparse contexts, NaN in Impute data, indicator=True with a missing value in the window of a feature that is not imputable, median over a window holding only strings, lists of statistics together with indicator=True",
